@@ -29,7 +29,7 @@ def main():
         rules = ", ".join(own.get("rules", [])[:3]) or "-"
         others = ", ".join(k for k in sorted(m["caught_by"]) if k != m["property"]) or "-"
         hist = m.get("history", "")
-        missed = "initially MISSED" in hist
+        missed = "initially MISSED" in hist or hist.lower().startswith("missed")
         miss += 1 if missed else 0
         rows.append("| %s | %s | %s | %s | %s |" % (m["id"], m["needs_to_manifest"].replace("|", "/")[:150], "`" + rules + "`", others,
                                                 "**missed at first** — " + hist.split(";")[-1].strip()[:170] if missed else (hist[:170] or "reported as written")))
